@@ -166,6 +166,16 @@ def run_case(ctx, P, stream, idx):
                 "--emit", ek, "-o", out_name]
         if infer_imports:
             argv.append("--emit-and-infer-imports")
+        # rarely varied flags
+        no_ww = r.random() < 0.3
+        emit_call = r.random() < 0.2
+        decorator = r.choice((None, None, None, None, "dataclass", "functools.lru_cache"))
+        if no_ww:
+            argv.append("--no-word-wrap")
+        if emit_call:
+            argv.append("--emit-call")
+        if decorator:
+            argv += ["--decorator", decorator]
         if with_prepend:
             future = "from __future__ import annotations\n" if r.random() < 0.5 else ""
             with open(os.path.join(d, "imports_src.py"), "w") as f:
@@ -186,12 +196,14 @@ def run_case(ctx, P, stream, idx):
     finally:
         shutil.rmtree(d, ignore_errors=True)
     cfg = {"parse": parse_arg, "input_kind": pk, "emit": ek, "name_tpl": tpl, "infer_imports": infer_imports,
-           "prepend": with_prepend, "existing_output": existing, "n": len(irs),
+           "prepend": with_prepend, "existing_output": existing, "n": len(irs), "no_word_wrap": no_ww,
+           "emit_call": emit_call, "decorator": decorator,
            "input_mapping": "directory(%d files%s)" % (len(dir_files), ", mixed kinds" if len(set(kinds)) > 1 else "")
            if as_dir else "file"}
     feats = "parse=%s,emit=%s,tpl=%s,imports=%s,prepend=%s%s" % (pk if parse_arg != "infer" else pk + "/infer", ek,
                                                                   TEMPLATES.index(tpl), infer_imports, with_prepend,
-                                                                  ",dir" if as_dir else "")
+                                                                  (",dir" if as_dir else "") + (",call" if emit_call else "")
+                                                                  + (",deco" if decorator else ""))
     w = {"stream": stream, "idx": idx, "config": cfg, "input": src, "output": out_src, "stderr": pr.stderr.decode()[-500:]}
     err_last = (pr.stderr.decode().strip().splitlines() or [""])[-1]
 
@@ -247,6 +259,20 @@ def run_case(ctx, P, stream, idx):
             P.monitor("output.compiled")
         except Exception as e:
             return dev("output-not-json", "output is not JSON: %r" % (e,))
+        # one schema per entry of the input mapping, identified by the templated name, with the entry's properties
+        schemas = doc["schemas"] if isinstance(doc, dict) and "schemas" in doc and len(irs) > 1 else [doc]
+        P.monitor("symbols.checked")
+        ids = [sc.get("$id") if isinstance(sc, dict) else None for sc in schemas]
+        js_mech = "gen.json-schema-input-symbol-named-by-filename" if pk == "json_schema" else None
+        if sorted(map(str, ids)) != sorted(want_names):
+            dev("schemas-differ", "schemas %r != templated names %r" % (ids, want_names), mech=js_mech)
+        for sc in schemas:
+            cand = [ir for ir in irs if tpl.format(name=ir["name"]) == (sc.get("$id") if isinstance(sc, dict) else None)]
+            if cand:
+                P.monitor("symbol.reparsed")
+                if list(sc.get("properties", {})) != list(cand[0]["params"]):
+                    dev("schema-properties-differ", "schema %s has properties %r, its source entry %r" % (
+                        sc.get("$id"), list(sc.get("properties", {})), list(cand[0]["params"])))
         return
     try:
         tree = ast.parse(out_src)
